@@ -433,7 +433,7 @@ PROPS = {
             "C04_integer_overflow_wraps", "C04_integer_overflow_witness", "C04_budget_zero_is_timeout",
             "C04_budget_zero_dispatches_nothing",
             "C04_equality_total", "C04_append_probe_terminates", "C04_step_no_abort_no_native", "C04_native_call_ok",
-            "C04_step_no_abort_partial2", "C04_step_preserves", "C04_loop_no_abort", "C04_run_no_abort_partial",
+            "C04_native_call_ok0", "C04_step_no_abort", "C04_step_preserves", "C04_loop_no_abort", "C04_run_no_abort_partial",
             "C04_fresh_state_inv", "C04_cyclic_table_aborts", "C04_cyclic_heap_not_acyclic",
             "C04_step_keeps_acyclic", "C04_set_property_ranked", "C04_append_table_ranked",
             "C04_wellformed_code_ok", "C04_compiled_run_no_abort",
@@ -487,7 +487,7 @@ PROPS = {
         assumptions=[
             "compile_total holds on C04Proofs.module_in_domain (decidable): estimated output below 2^32 bytes (the former "
             "conditions on zero handles went with 3f22e7c: N-C04-1..3 repaired, C04_zero_*_repaired)",
-            "run_no_abort: one step of every opcode (C04_step_no_abort_partial2) and the dispatch loop / Vm::run "
+            "run_no_abort: one step of every opcode and every native (C04_step_no_abort) and the dispatch loop / Vm::run "
             "(C04_loop_no_abort, C04_run_no_abort_partial) do not abort under the structural invariant vm_inv (proved "
             "to be preserved: C04_step_preserves) and the per-instruction conditions [side]: the heap is ranked "
             "(acyclic and nested less than eq_fuel - 1 = 23 tables deep; a cyclic table aborts: C04_cyclic_table_aborts, "
@@ -495,8 +495,8 @@ PROPS = {
             "builds, RegisterUpvalue's captured variable exists. [side] is a hypothesis on the instructions the "
             "loop dispatches (heap_acyclic is not preserved by SetProperty / AppendTable of a table into a table). "
             "(C04_step_keeps_acyclic: every other instruction keeps it; C04_set_property_ranked / "
-            "C04_append_table_ranked: the condition for those two). NOT covered: the stdlib natives __min / __max / "
-            "__sort; nested runs enter through the contract reenter_ok (a hypothesis, not discharged by induction over "
+            "C04_append_table_ranked: the condition for those two; the stdlib natives __min / __max / __sort are not "
+            "shown to keep it). Nested runs enter through the contract reenter_ok (a hypothesis, not discharged by induction over "
             "the nesting depth); code_ok (instruction starts, operands inside, jump targets and labels at starts) "
             "follows from C10 wellformed (C04_wellformed_code_ok, C04_compiled_run_no_abort). The model's == has a "
             "recursion fuel of 24: tables nested 23 or more levels deep count as an abort in the model although the "
